@@ -212,7 +212,7 @@ Qed.
 
 Lemma step_sem g l : Sem g -> Sem (step g l).
 Proof.
-  intros H. destruct l as [t d al|t o|t| | |h order]; cbn [step].
+  intros H. destruct l as [t d al|t o|t| | |h order|]; cbn [step].
   - unfold add_task. destruct (add_refused_after_join && joined g); [exact H|].
     destruct (get t (members g)); [exact H|].
     destruct (match al with Some o => Fin o | None => Run end); cbn [fst];
@@ -245,6 +245,8 @@ Proof.
       * intros Hg. apply S2. exact Hg.
       * intros E. rewrite E in S4. discriminate.
       * destruct (wake g); [injection S4 as S4; exact S4|discriminate].
+  - destruct (app_next_cases g) as [->|(t & rest & sv & Ep & Ec & Ed & Es & ->)]; [exact H|].
+    destruct H as [S1 S2 S3 S4]. split; cbn; auto. rewrite Ed, Es in S1. cbn in S1. lia.
 Qed.
 
 Theorem reachable_sem p m ls : Sem (run p m ls).
@@ -519,7 +521,7 @@ Qed.
 (* ---------- lifted to every reachable state ---------- *)
 Lemma nonjoiner_pc g l : joiner_runs g l = false -> pc (step g l) = pc g.
 Proof.
-  intros Hj. destruct l as [t d al|t o|t| | |h order]; cbn [step].
+  intros Hj. destruct l as [t d al|t o|t| | |h order|]; cbn [step].
   - unfold add_task. destruct (add_refused_after_join && joined g); [reflexivity|].
     destruct (get t (members g)); [reflexivity|].
     destruct (match al with Some o => Fin o | None => Run end); cbn [fst]; try (destruct d; reflexivity).
@@ -532,12 +534,13 @@ Proof.
   - cbn in Hj. destruct (queue g) as [|h0 rest]; [reflexivity|]. cbv zeta. destruct h0 as [[t|t]|]; [| |discriminate].
     + cbn [run_cb]. destruct (on_done_jfields (upd_queue g rest) t) as (_ & _ & -> & _). reflexivity.
     + destruct (pop_jfields (upd_queue g rest) t) as (_ & _ & -> & _). reflexivity.
+  - now destruct (app_next_frame g) as (_ & _ & _ & _ & -> & _).
 Qed.
 
 Lemma step_post g l : Once g -> CF g -> Post g -> Post (step g l).
 Proof.
   intros Ho Hc Hp. destruct (joiner_runs g l) eqn:Ej.
-  - destruct l as [| | | | |h order]; try discriminate. cbn in Ej. cbn [step].
+  - destruct l as [| | | | |h order|]; try discriminate. cbn in Ej. cbn [step].
     destruct (queue g) as [|[c|] rest] eqn:Eq; try discriminate. cbv zeta.
     assert (Ho1 : Once (upd_queue g rest)) by (apply (once_same g); auto; unfold yielded; cbn; now rewrite Eq).
     apply joiner_step_post; [exact Ho1|exact Hc|exact Hp].
